@@ -361,7 +361,12 @@ func replScenario(out *Out, r *rand.Rand, sc int) {
 			e.mu.Unlock()
 			if last > 2 {
 				ctx, cancel := context.WithTimeout(context.Background(), 5*time.Second)
-				if st, err := lc.Replicate(ctx, &regattapb.ReplicateRequest{Table: []byte(n), LeaderIndex: 1 + uint64(cr.Int63n(int64(last)))}); err == nil {
+				// half of the time close to the tail - ahead of what our follower has asked for so far
+				at := 1 + uint64(cr.Int63n(int64(last)))
+				if cr.Intn(2) == 0 {
+					at = last - uint64(cr.Intn(3))
+				}
+				if st, err := lc.Replicate(ctx, &regattapb.ReplicateRequest{Table: []byte(n), LeaderIndex: at}); err == nil {
 					for {
 						if _, err := st.Recv(); err != nil {
 							break
